@@ -58,7 +58,7 @@ UNITS += [
 SS = "libs/pika/synchronization/src/detail/sliding_semaphore.cpp"
 LOOP_SWAIT = """
 __CPROVER_assigns(W_FRAME)
-__CPROVER_loop_invariant(OWNS_P(l) && RANGE && g_cs_lower == self->lower_limit_ && g_waits >= 0 && g_waits <= 2 && g_releases >= 0 && g_releases <= 2)
+__CPROVER_loop_invariant(OWNS_P(l) && RANGE && g_cs_lower == self->lower_limit_ && g_cs_maxdiff == self->max_difference_ && (g_waits == 0 ==> self->max_difference_ == vx_md0) && g_waits >= 0 && g_waits <= 2 && g_releases >= 0 && g_releases <= 2)
 """
 LOOP_SSIGNAL = """
 __CPROVER_assigns(count, l, S_FRAME)
@@ -71,7 +71,8 @@ __CPROVER_loop_invariant(g_notifies >= 0 && g_notifies <= 2 && g_releases >= 0 &
 UNITS += [
     Unit("ssem.wait", "sliding.c", defines=["U_WAIT"], enforce="wait",
          lifts={"body": Lift(SS, r"void sliding_semaphore::wait\(", rules=[
-             Call(r"cond_\.wait", "cv_wait(&self->cond_, {0})", 1), Members(["max_difference_", "lower_limit_"])],
+             Call(r"cond_\.wait", "cv_wait(&self->cond_, {0})", 1), Members(["max_difference_", "lower_limit_"]),
+             Sub(r"^\s*\{", "{ int64_t vx_md0 = self->max_difference_;", 1)],   # ghost: max_difference_ at entry (loop invariant only)
              loops={1: LOOP_SWAIT, "count": 1})},
          funcs=[SS + ": detail::sliding_semaphore::wait"], min_obligations=20),
     Unit("ssem.try_wait", "sliding.c", defines=["U_TRY_WAIT"], enforce="try_wait", replace=["wait"],
